@@ -93,7 +93,7 @@ CHECKS = {
  "C16": dict(
    category="exploration", design="DESIGN.md §5 C16",
    technique="property-based testing: generated programs with pure functions x generated histories with evaluate_function injected (twice) at generated boundaries; lockstep differential against the uninjected history; repeatability of the result; second leg: value and text of the evaluation compared with the independent reference interpreter of C01 played in lockstep",
-   text="evaluate_function is injected at generated boundaries of generated histories; the polled view must be identical before and after, the second call must return what the first returned, and the whole history must behave as without the calls (visit counts of functions excluded). Exploration only.",
+   text="evaluate_function is injected at generated boundaries of generated histories (int arguments; bool, float, string and list values read back from a global for functions written for any type); the polled view must be identical before and after, the second call must return what the first returned, and the whole history must behave as without the calls (visit counts of functions excluded). Exploration only.",
    note="Purity of the evaluated functions is by generator construction (leg 1) or by inspection of the AST (leg 2). Leg 2 compares the returned value (typed) and the printed text (trailing blanks apart) with the reference interpreter; nothing is evaluated behind an error."),
  "C17": dict(
    category="exploration", design="DESIGN.md §5 C17",
